@@ -19,6 +19,8 @@ def run(ck):
     progs += contract.programs(ck.seed + 1, 80 if q else 1500, "abelian", tids=tids, dtypes=gen.DTYPES, salt="c20a")
     progs += contract.programs(ck.seed + 1, 40 if q else 800, "fermionic", syms=gen.STATIC_SYMS, tids=tids,
                                dtypes=gen.DTYPES, salt="c20f")
+    from harness.drivers import linalg_drv
+    progs += linalg_drv.dtype_programs(ck.seed, 64 if q else 800, tids=tids)
     ck.cov["rule"] = ("walks, fuse (both strategies, sparse so that zero blocks are created) and contractions through the fused "
                       "path in float32/float64/complex64/complex128; the dtype of every block, vector and numpy scalar of every "
                       "result is compared with the operands' (real counterpart for singular values)")
